@@ -67,8 +67,20 @@ def tip_path(case):
             if u.size > 2:
                 step = np.min(np.diff(u))
                 u[1:-1] += rng.uniform(-0.4, 0.4, size=u.size - 2) * step
+    ring = case.get("ring")
+    if ring:
+        # the piezo holds the turning point for ``n`` samples (recorded with the retract) while the
+        # tip rings, damped, with ``amp`` x travel: a height that is not monotonic by a tiny amount
+        m = max(1, min(int(ring["n"]), n_ret - 2))
+        ur = np.linspace(0, 1, n_ret - m + 1)[1:]
+        if samp == "quadratic":
+            ur = 1 - (1 - ur) ** 1.7
     tip_a = top + (bot - top) * ua
     tip_r = bot + (top - bot) * ur
+    if ring:
+        jj = np.arange(m)
+        hold = bot + ring["amp"] * (top - bot) * np.exp(-jj / ring["tau"]) * np.sin(2 * np.pi * (jj + 0.5) / ring["period"])
+        tip_r = np.concatenate([hold, tip_r])
     n_pause = int(case.get("n_pause") or 0)
     if n_pause:
         # a dwell at maximum indentation: third segment between approach and retract
